@@ -62,7 +62,7 @@ DownNode ==
 
 \* effective limits after Config.validate()
 MaxMsgSize(c)      == c.maxSizePerMsg
-MaxApplying(c)     == IF c.maxCommittedSize = 0 THEN c.maxSizePerMsg ELSE c.maxCommittedSize
+MaxApplying(c)     == IF c.maxCommittedSize = 0 THEN Max2(c.maxSizePerMsg, 1) ELSE c.maxCommittedSize
 MaxUncommitted(c)  == IF c.maxUncommittedSize = 0 THEN NoLimit ELSE c.maxUncommittedSize
 MaxInflBytes(c)    == IF c.maxInflightBytes = 0 THEN NoLimit ELSE c.maxInflightBytes
 
